@@ -263,6 +263,20 @@ def check(chk):
                             chk.judge(good, 'C01.cursor', st, '%s.%s: %s then %s += %s' % (c.name, name, src(sub), cur, width),
                                       'after reading %s the cursor is not advanced by %s (next statement: %s)' % (src(sub), width, src(nxt)[:60] if nxt is not None else 'end of block'))
     chk.require('C01.cursor', 8)
+    # decoded maps index their entries by the key bytes as received; the container re-encodes looked-up keys with the version it is given
+    chk.rule('C01.mapkey', 'MapType.deserialize_safe: OrderedMapSerializedKey is given the same (inner) protocol version the key bytes are decoded with')
+    mt = C.mod.cls('MapType')
+    md, _ = C.find_method(mt, 'deserialize_safe')
+    pom = [n for n in body_walk(md) if isinstance(n, ast.Assign) and isinstance(n.value, ast.Call) and src(n.value.func).endswith('OrderedMapSerializedKey')]
+    pkd = [n for n in body_walk(md) if isinstance(n, ast.Call) and src(n.func) == 'key_type.from_binary']
+    ins = [n for n in body_walk(md) if isinstance(n, ast.Call) and src(n.func).endswith('._insert_unchecked')]
+    ok = len(pom) == 1 and len(pkd) == 1 and len(ins) == 1 and len(pom[0].value.args) == 2 and len(ins[0].args) == 3
+    if ok:
+        var = src(pom[0].value.args[1])
+        reass = [n for n in body_walk(md) if isinstance(n, ast.Assign) and src(n.targets[0]) == var]
+        ok = src(pkd[0].args[1]) == var and all(r.lineno < pom[0].lineno for r in reass) and src(ins[0].args[1]) == src(pkd[0].args[0])
+    chk.judge(ok, 'C01.mapkey', md, 'the map container re-encodes keys with the version its index bytes are in',
+              'a decoded map is indexed by key bytes in one encoding and looks keys up in another: with collection keys on protocol 1/2 every lookup, items() and equality fail with KeyError')
 
     # ---- to_binary / from_binary
     base = mod.cls('_CassandraType')
